@@ -27,6 +27,9 @@ import (
 	"github.com/ryogrid/SamehadaDB/lib/samehada/samehada_util"
 	"github.com/ryogrid/SamehadaDB/lib/storage/access"
 	"github.com/ryogrid/SamehadaDB/lib/storage/buffer"
+	"github.com/ryogrid/SamehadaDB/lib/storage/index/index_constants"
+	"github.com/ryogrid/SamehadaDB/lib/storage/table/column"
+	"github.com/ryogrid/SamehadaDB/lib/storage/table/schema"
 	"github.com/ryogrid/SamehadaDB/lib/types"
 	"github.com/ryogrid/SamehadaDB/lib/verifshim/vrand"
 	"github.com/ryogrid/SamehadaDB/lib/verifshim/vsched"
@@ -303,6 +306,43 @@ func (d *DB) Auto(sql string) StmtResult {
 		r.Fail = f
 	}
 	return r
+}
+
+// CreateTable creates td through SQL DDL, or through the catalog API when index kinds are given.
+func (d *DB) CreateTable(td TableDef) *Failure {
+	if td.Idx == nil {
+		r := d.Auto(td.CreateSQL())
+		if r.Fail != nil {
+			return r.Fail
+		}
+		if r.Err != "" || r.Aborted {
+			return &Failure{Kind: "refused", Msg: fmt.Sprintf("CREATE TABLE refused: %s aborted=%v", r.Err, r.Aborted), Where: "ddl"}
+		}
+		return nil
+	}
+	return guard(func() {
+		var cols []*column.Column
+		for i, c := range td.Cols {
+			ty := map[ColType]types.TypeID{TInt: types.Integer, TFloat: types.Float, TStr: types.Varchar}[c.Type]
+			kind, has := index_constants.IndexKindInvalid, true
+			switch td.Idx[i] {
+			case "skip":
+				kind = index_constants.IndexKindSkipList
+			case "uniq":
+				kind = index_constants.IndexKindUniqSkipList
+			case "btree":
+				kind = index_constants.IndexKindBtree
+			case "hash":
+				kind = index_constants.IndexKindHash
+			default:
+				has = false
+			}
+			cols = append(cols, column.NewColumn(c.Name, ty, has, kind, types.PageID(-1), nil))
+		}
+		t := d.Begin()
+		d.Cat().CreateTable(td.Name, schema.NewSchema(cols), t.T)
+		d.TM().Commit(d.Cat(), t.T)
+	})
 }
 
 // MustAuto is Auto for set-up statements that cannot reasonably fail; a failure is a harness error.
